@@ -21,6 +21,14 @@ class C11(SessionCheck):
                                               'profile': SG.PROFILES[i % len(SG.PROFILES)], 'threads': rng.randint(1, 3),
                                               'per_thread': rng.randint(1, 4), 'window': rng.randint(1, 3), 'notifs': rng.randint(1, 8),
                                               'seg': rng.choice(['random', 'whole', 'ones']), 'seed': rng.randrange(1 << 30)}})
+        for i in range(2 if tier == 'quick' else 20):
+            # a multi-read reply directly followed by a notification in the same final read, then silence (base 1.0 and 1.1)
+            out.append({'kind': 'e2e', 'sc': {'transport': 'unix', 'profile': 'default', 'threads': 1, 'per_thread': 1, 'window': 1, 'notifs': 1,
+                                              'notif_after_reply': True, 'pad': 3000 + 500 * i, 'seg': 'paced', 'seed': rng.randrange(1 << 30),
+                                              'server_caps': None if i % 2 else ['urn:ietf:params:netconf:base:1.0', 'urn:ietf:params:netconf:capability:notification:1.0']}})
+        for i in range(2 if tier == 'quick' else 20):
+            out.append({'kind': 'e2e', 'sc': {'transport': ['unix', 'ssh'][i % 2], 'profile': 'default', 'threads': 1, 'per_thread': 1, 'window': 1,
+                                              'notifs': 0, 'notifs_then_close': 3, 'seg': 'whole', 'seed': rng.randrange(1 << 30), 'after_close': True}})
         return out
 
     def oracle(self, case, io):
@@ -33,6 +41,8 @@ class C11(SessionCheck):
             if io['notifs'] != want:
                 return ('C11:notification-lost-or-reordered@' + sc['profile'], 'take_notification returned %d of %d notifications / wrong order or text' % (len(io['notifs']), len(want)))
             bad = [c for c in io['calls'] if c['out'][0] != 'reply']
+            if sc.get('after_close'):
+                return None
             if bad or not io['connected_before_close']:
                 return ('C11:notification-disturbed-rpc@' + sc['profile'], 'with notifications interleaved a request failed (%s) or the session died' % (bad[0]['out'][1] if bad else 'disconnected'))
             if not io['take_empty_nonblocking'] or io['take_empty_nonblocking_dt'] > 0.2:
@@ -47,6 +57,10 @@ class C11(SessionCheck):
         taken = [unhexs(t) for t in last['taken']]
         if taken != good[:len(taken)]:
             return ('C11:wrong-notification', 'take_notification returned something that is not the next notification sent')
+        # everything that was fully read and dispatched before the end must be handed out by the final takes, session alive or not
+        if info.get('finished') and io['conn_result'] == 'ok' and info.get('server_out_left', 1) == 0 and not info.get('faults') \
+                and case['flavor'] in ('normal', 'late-ready', 'close') and len(taken) != len(good):
+            return ('C11:notification-lost', '%d notifications sent and fully read, %d returned by take_notification' % (len(good), len(taken)))
         clean = case['flavor'] in ('normal', 'late-ready') and not info.get('faults')
         if clean and info.get('finished') and io['conn_result'] == 'ok':
             if info.get('server_out_left', 1) == 0 and len(taken) != len(good) and last['pc'] != 'stopped':
